@@ -102,7 +102,7 @@ def _counters(ctx):
     graph = ctx.cfg(add)
     hits = K.nodes_calling(
         graph, lambda c: K.is_meth(c, 'increment_affinity') and
-        len(c.args) == 1 and
+        K.recv_text(c) == 'self' and len(c.args) == 1 and
         N.txt(c.args[0]) == '%s.affinity_counters' % child)
     seen = K.cut_reach(graph, graph.entry,
                        cut_node=lambda n: any(n is h for h, _c in hits),
@@ -141,11 +141,12 @@ def _counters(ctx):
                         ok = K.guarded_by(
                             graph, site, lambda e, m=meth, a=arg: any(
                                 K.is_meth(c, m) and c.args and
+                                K.recv_text(c) == 'self' and
                                 N.txt(c.args[0]) == a
                                 for c in C.node_calls(e.src)))
                         ctx.ob('C04.1', func, site, ok,
-                               'a child is detached only after %s(%s)' % (
-                                   meth, arg),
+                               'a child is detached only after this node\'s '
+                               '%s(%s)' % (meth, arg),
                                construct='%s <= %s' % (site.text(40), meth))
                 if isinstance(sub, ast.Assign) and any(
                         N.txt(t) in ('self.children',
